@@ -5,4 +5,346 @@ import BiscuitModel.Model.Expr
 
 namespace Biscuit
 
+/-! ## Outcome -/
+
+theorem Outcome.isPanic_bind {α β : Type} {x : Outcome α} {f : α → Outcome β}
+    (hx : x.isPanic = false) (hf : ∀ a, (f a).isPanic = false) :
+    (x.bind f).isPanic = false := by
+  cases x with
+  | ok a => exact hf a
+  | err e => rfl
+  | panic s => cases hx
+
+theorem Outcome.bind_eq_ok {α β : Type} {x : Outcome α} {f : α → Outcome β} {b : β}
+    (h : x.bind f = .ok b) : ∃ a, x = .ok a ∧ f a = .ok b := by
+  cases x with
+  | ok a => exact ⟨a, rfl, h⟩
+  | err e => cases h
+  | panic s => cases h
+
+/-! ## No panics -/
+
+theorem boolV_no_panic (b : Bool) : (boolV b).isPanic = false := rfl
+
+theorem checkedInt_no_panic (x : Int) : (checkedInt x).isPanic = false := by
+  unfold checkedInt; split <;> rfl
+
+theorem evalUnary_no_panic (u : UnOp) (v : Val) : (evalUnary u v).isPanic = false := by
+  cases u <;> cases v <;> (try (rename_i a; cases a)) <;> rfl
+
+theorem evalCompare_no_panic (cmpI : Int → Int → Bool) (cmpN : Nat → Nat → Bool) (l r : Val) :
+    (evalCompare cmpI cmpN l r).isPanic = false := by
+  cases l <;> cases r <;> (try (rename_i a b; cases a <;> cases b)) <;> rfl
+
+theorem evalEqual_no_panic (cfg : EvalCfg) (hs : cfg.sets = .loops) (l r : Val) :
+    (evalEqual cfg l r).isPanic = false := by
+  cases l <;> cases r <;> simp only [evalEqual, hs]
+  · split <;> rfl
+  · rfl
+  · rfl
+  · rfl
+
+theorem pinnedSetGuard_loops (cfg : EvalCfg) (hs : cfg.sets = .loops) (s t : List Atom)
+    (k : Outcome Val) : pinnedSetGuard cfg s t k = k := by
+  simp [pinnedSetGuard, hs]
+
+theorem evalBinary_no_panic (cfg : EvalCfg) (hs : cfg.sets = .loops) (op : BinOp) (l r : Val) :
+    (evalBinary cfg op l r).isPanic = false := by
+  cases op
+  case lt => exact evalCompare_no_panic _ _ l r
+  case le => exact evalCompare_no_panic _ _ l r
+  case gt => exact evalCompare_no_panic _ _ l r
+  case ge => exact evalCompare_no_panic _ _ l r
+  case eq => exact evalEqual_no_panic cfg hs l r
+  case regex =>
+    cases l <;> cases r <;> (try (rename_i a b; cases a <;> cases b)) <;> try rfl
+    simp only [evalBinary]
+    split <;> rfl
+  case div =>
+    cases l <;> cases r <;> (try (rename_i a b; cases a <;> cases b)) <;> try rfl
+    simp only [evalBinary]
+    split
+    · rfl
+    · split
+      · exact checkedInt_no_panic _
+      · rfl
+  all_goals
+    cases l <;> cases r <;> (try (rename_i a b; cases a <;> (try cases b))) <;>
+      first
+        | rfl
+        | exact checkedInt_no_panic _
+        | (simp only [evalBinary, pinnedSetGuard_loops cfg hs]; rfl)
+
+theorem push_no_panic (st : List Val) (v : Val) : (push st v).isPanic = false := by
+  unfold push; split <;> rfl
+
+theorem stepOp_no_panic (cfg : EvalCfg) (hs : cfg.sets = .loops) (σ : Bindings Val)
+    (st : List Val) (op : Op) : (stepOp cfg σ st op).isPanic = false := by
+  cases op with
+  | value t =>
+    cases t with
+    | const v => exact push_no_panic st v
+    | var n =>
+      simp only [stepOp]
+      split
+      · rfl
+      · exact push_no_panic st _
+  | unary u =>
+    cases st with
+    | nil => rfl
+    | cons v rest =>
+      exact Outcome.isPanic_bind (evalUnary_no_panic u v) (push_no_panic rest)
+  | binary b =>
+    match st with
+    | [] => rfl
+    | [_] => rfl
+    | r :: l :: rest =>
+      exact Outcome.isPanic_bind (evalBinary_no_panic cfg hs b l r) (push_no_panic rest)
+
+theorem runOps_no_panic (cfg : EvalCfg) (hs : cfg.sets = .loops) (σ : Bindings Val)
+    (ops : List Op) : ∀ st, (runOps cfg σ ops st).isPanic = false := by
+  induction ops with
+  | nil => intro st; rfl
+  | cons op ops ih =>
+    intro st
+    exact Outcome.isPanic_bind (stepOp_no_panic cfg hs σ st op) ih
+
+/-! ## Stack depth -/
+
+theorem push_ok {st st1 : List Val} {v : Val} (h : push st v = .ok st1) :
+    st.length < maxStackSize ∧ st1 = v :: st := by
+  unfold push at h
+  split at h
+  · cases h
+  · cases h; exact ⟨by omega, rfl⟩
+
+/-- Local copy of the depth function of `Props/C06` (same equations), so that the
+helper lemmas can be stated here. -/
+def depthAfter' : List Op → Nat → Option Nat
+  | [], d => some d
+  | .value _ :: ops, d => if d ≥ maxStackSize then none else depthAfter' ops (d + 1)
+  | .unary _ :: ops, d => if d = 0 then none else depthAfter' ops d
+  | .binary _ :: ops, d => if d < 2 then none else depthAfter' ops (d - 1)
+
+theorem stepOp_ok_depth (cfg : EvalCfg) (σ : Bindings Val) (ops : List Op) {st st1 : List Val}
+    {op : Op} (h : stepOp cfg σ st op = .ok st1) :
+    depthAfter' (op :: ops) st.length = depthAfter' ops st1.length := by
+  cases op with
+  | value t =>
+    have hp : ∃ v, push st v = .ok st1 := by
+      cases t with
+      | const v => exact ⟨v, h⟩
+      | var n =>
+        simp only [stepOp] at h
+        split at h
+        · cases h
+        · exact ⟨_, h⟩
+    obtain ⟨v, hv⟩ := hp
+    obtain ⟨hl, rfl⟩ := push_ok hv
+    have : ¬ st.length ≥ maxStackSize := by omega
+    simp [depthAfter', this]
+  | unary u =>
+    cases st with
+    | nil => cases h
+    | cons v rest =>
+      obtain ⟨w, _, hw⟩ := Outcome.bind_eq_ok h
+      obtain ⟨_, rfl⟩ := push_ok hw
+      simp [depthAfter']
+  | binary b =>
+    match st, h with
+    | [], h => cases h
+    | [_], h => cases h
+    | r :: l :: rest, h =>
+      obtain ⟨w, _, hw⟩ := Outcome.bind_eq_ok h
+      obtain ⟨_, rfl⟩ := push_ok hw
+      have : ¬ (rest.length + 1 + 1 < 2) := by omega
+      simp [depthAfter', this]
+
+theorem runOps_ok_depth (cfg : EvalCfg) (σ : Bindings Val) (ops : List Op) :
+    ∀ st st', runOps cfg σ ops st = .ok st' → depthAfter' ops st.length = some st'.length := by
+  induction ops with
+  | nil => intro st st' h; cases h; rfl
+  | cons op ops ih =>
+    intro st st' h
+    obtain ⟨st1, h1, h2⟩ := Outcome.bind_eq_ok h
+    rw [stepOp_ok_depth cfg σ ops h1]
+    exact ih st1 st' h2
+
+theorem eval_ok_depth (cfg : EvalCfg) (σ : Bindings Val) (e : Expr) (v : Val)
+    (h : eval cfg σ e = .ok v) : depthAfter' e 0 = some 1 := by
+  obtain ⟨st, h1, h2⟩ := Outcome.bind_eq_ok h
+  have := runOps_ok_depth cfg σ e [] st h1
+  match st, h2 with
+  | [w], _ => exact this
+  | [], h2 => cases h2
+  | _ :: _ :: _, h2 => cases h2
+
+theorem eval_no_panic' (cfg : EvalCfg) (hs : cfg.sets = .loops) (σ : Bindings Val) (e : Expr) :
+    (eval cfg σ e).isPanic = false := by
+  refine Outcome.isPanic_bind (runOps_no_panic cfg hs σ e []) ?_
+  intro st
+  match st with
+  | [] => rfl
+  | [_] => rfl
+  | _ :: _ :: _ => rfl
+
+theorem runOps_append (cfg : EvalCfg) (σ : Bindings Val) (a b : List Op) :
+    ∀ st, runOps cfg σ (a ++ b) st = (runOps cfg σ a st).bind (runOps cfg σ b) := by
+  induction a with
+  | nil => intro st; rfl
+  | cons op a ih =>
+    intro st
+    simp only [List.cons_append, runOps]
+    cases stepOp cfg σ st op with
+    | ok st1 => exact ih st1
+    | err e => rfl
+    | panic s => rfl
+
+theorem stepOp_unbound (cfg : EvalCfg) (σ : Bindings Val) (n : Bytes) (h : σ.lookup n = none)
+    (st : List Val) : stepOp cfg σ st (.value (.var n)) = .err .unknownVar := by
+  simp [stepOp, h]
+
+/-! ## Sets -/
+
+theorem subset_of_nodup_of_length_le : ∀ {s t : List Atom}, s.Nodup → (∀ x ∈ s, x ∈ t) →
+    t.length ≤ s.length → ∀ x ∈ t, x ∈ s := by
+  intro s
+  induction s with
+  | nil =>
+    intro t _ _ hl x hx
+    cases t with
+    | nil => exact hx
+    | cons _ _ => simp at hl
+  | cons a s ih =>
+    intro t hs hst hl x hx
+    obtain ⟨has, hs'⟩ := List.nodup_cons.mp hs
+    have hat : a ∈ t := hst a (List.mem_cons_self ..)
+    have hsub : ∀ y ∈ s, y ∈ t.erase a := by
+      intro y hy
+      have hne : y ≠ a := by intro e; subst e; exact has hy
+      exact (List.mem_erase_of_ne hne).mpr (hst y (List.mem_cons_of_mem _ hy))
+    have hlen : (t.erase a).length ≤ s.length := by
+      rw [List.length_erase_of_mem hat]; simp at hl; omega
+    by_cases hxa : x = a
+    · subst hxa; exact List.mem_cons_self ..
+    · exact List.mem_cons_of_mem _ (ih hs' hsub hlen x ((List.mem_erase_of_ne hxa).mpr hx))
+
+theorem length_le_of_nodup_subset : ∀ {s t : List Atom}, s.Nodup → (∀ x ∈ s, x ∈ t) →
+    s.length ≤ t.length := by
+  intro s
+  induction s with
+  | nil => intros; simp
+  | cons a s ih =>
+    intro t hs hst
+    obtain ⟨has, hs'⟩ := List.nodup_cons.mp hs
+    have hat : a ∈ t := hst a (List.mem_cons_self ..)
+    have hsub : ∀ y ∈ s, y ∈ t.erase a := by
+      intro y hy
+      have hne : y ≠ a := by intro e; subst e; exact has hy
+      exact (List.mem_erase_of_ne hne).mpr (hst y (List.mem_cons_of_mem _ hy))
+    have := ih hs' hsub
+    rw [List.length_erase_of_mem hat] at this
+    have : 0 < t.length := List.length_pos_of_mem hat
+    simp; omega
+
+theorem setEqual_iff (s t : List Atom) :
+    setEqual s t = true ↔ s.length = t.length ∧ (∀ x ∈ s, x ∈ t) ∧ (∀ x ∈ t, x ∈ s) := by
+  simp [setEqual, and_assoc]
+
+/-! ## Typing -/
+
+theorem checkedInt_ne_type (x : Int) : checkedInt x ≠ .err .type := by
+  unfold checkedInt; split <;> simp
+
+theorem checkedInt_eq (x : Int) :
+    checkedInt x = if inI64 x then .ok (.atom (.int x)) else .err .overflow := rfl
+
+/-! ## Strings, 64-bit division -/
+
+theorem bytesContains_iff (a b : Bytes) : bytesContains a b = true ↔ ∃ p q, a = p ++ b ++ q := by
+  induction a with
+  | nil =>
+    simp only [bytesContains]
+    constructor
+    · intro h
+      have : b = [] := by simpa using h
+      exact ⟨[], [], by simp [this]⟩
+    · rintro ⟨p, q, h⟩
+      have h' := h.symm
+      simp at h'
+      simp [h'.2.1]
+  | cons x xs ih =>
+    simp only [bytesContains, Bool.or_eq_true, ih, List.isPrefixOf_iff_prefix]
+    constructor
+    · rintro (⟨q, hq⟩ | ⟨p, q, h⟩)
+      · exact ⟨[], q, by simp [hq]⟩
+      · exact ⟨x :: p, q, by simp [h]⟩
+    · rintro ⟨p, q, h⟩
+      cases p with
+      | nil => left; exact ⟨q, by simpa using h.symm⟩
+      | cons y p =>
+        right
+        simp at h
+        exact ⟨p, q, by simp [h.2]⟩
+
+theorem wrapI64_of_inI64 (x : Int) (h : inI64 x = true) : wrapI64 x = x := by
+  rw [inI64_iff] at h
+  unfold wrapI64
+  rw [BitVec.toInt_ofInt]
+  apply Int.bmod_eq_of_le <;> simp [i64Min, i64Max] at h ⊢ <;> omega
+
+theorem toInt_ofInt_of_inI64 (x : Int) (h : inI64 x = true) : (BitVec.ofInt 64 x).toInt = x :=
+  wrapI64_of_inI64 x h
+
+theorem tdiv_inI64 (a b : Int) (ha : inI64 a = true) (hb0 : b ≠ 0)
+    (h : ¬ (a = i64Min ∧ b = -1)) : inI64 (Int.tdiv a b) = true := by
+  rw [inI64_iff] at ha ⊢
+  simp only [i64Min, i64Max] at ha h ⊢
+  have hq := Int.natAbs_tdiv a b
+  have hle : (Int.tdiv a b).natAbs ≤ a.natAbs := by
+    rw [hq]; exact Nat.div_le_self _ _
+  by_cases h1 : b.natAbs = 1
+  · -- b = 1 or b = -1
+    have hb : b = 1 ∨ b = -1 := by omega
+    rcases hb with rfl | rfl
+    · simp; omega
+    · have : a ≠ -9223372036854775808 := fun e => h ⟨e, rfl⟩
+      simp; omega
+  · have h2 : 1 < b.natAbs := by omega
+    by_cases ha0 : a.natAbs = 0
+    · have : a = 0 := by omega
+      subst this; simp
+    · have : (Int.tdiv a b).natAbs < a.natAbs := by
+        rw [hq]; exact Nat.div_lt_self (by omega) h2
+      omega
+
+
+theorem intMin64_toInt : (BitVec.intMin 64).toInt = i64Min := by decide
+
+theorem negOne64_toInt : (-1#64 : BitVec 64).toInt = -1 := by decide
+
+theorem machine_div_guard (a b : Int) (ha : inI64 a = true) (hb : inI64 b = true)
+    (h : ¬ (a = i64Min ∧ b = -1)) :
+    BitVec.ofInt 64 a ≠ BitVec.intMin 64 ∨ BitVec.ofInt 64 b ≠ -1#64 := by
+  by_cases h1 : a = i64Min
+  · right
+    intro e
+    have := congrArg BitVec.toInt e
+    rw [toInt_ofInt_of_inI64 b hb, negOne64_toInt] at this
+    exact h ⟨h1, this⟩
+  · left
+    intro e
+    have := congrArg BitVec.toInt e
+    rw [toInt_ofInt_of_inI64 a ha, intMin64_toInt] at this
+    exact h1 this
+
+theorem wrap_tdiv_eq_sdiv (a b : Int) (ha : inI64 a = true) (hb : inI64 b = true) (hb0 : b ≠ 0) :
+    wrapI64 (Int.tdiv a b) = ((BitVec.ofInt 64 a).sdiv (BitVec.ofInt 64 b)).toInt := by
+  by_cases hc : a = i64Min ∧ b = -1
+  · obtain ⟨rfl, rfl⟩ := hc
+    decide
+  · rw [BitVec.toInt_sdiv_of_ne_or_ne _ _ (machine_div_guard a b ha hb hc),
+      toInt_ofInt_of_inI64 a ha, toInt_ofInt_of_inI64 b hb,
+      wrapI64_of_inI64 _ (tdiv_inI64 a b ha hb0 hc)]
+
 end Biscuit
